@@ -22,19 +22,181 @@ Proof.
   - rewrite <- leaves_strip, C. now apply conv_leaves.
 Qed.
 
-(* the known finding, at the level of the model: to(<floating dtype>) of a permutation operator cannot succeed *)
-Lemma perm_to_float_raises defdt f d dev p q nd at_ n :
-  spec_of CPermutation = {| cs_npos := 2; cs_varargs := false;
-                            cs_named := [(k_validate_args, Some (VBool true), PKw)]; cs_varkw := false |} ->
-  is_float d = true ->
-  meth_call defdt (S f) (MTo (Some d) dev) (AOp CPermutation [ATensor p; ATensor q] [] nd at_) n = None.
+(* ------------------------------------------------------------------ every floating leaf is cast *)
+Lemma map_eq_Forall2 {A B C} (f : A -> C) (g : B -> C) : forall l' l,
+  map f l' = map g l -> Forall2 (fun x y => f x = g y) l' l.
 Proof.
-  intros Hs F. rewrite meth_call_S. cbv zeta.
-  change (guarded CPermutation) with false. change (cls_eqb CPermutation CCat) with false. cbv iota.
-  simpl map_st.
-  destruct (dt_eqb (tdt p) d) eqn:Qp; [apply dt_eqb_eq in Qp|];
-  (destruct (dt_eqb (tdt q) d) eqn:Qq; [apply dt_eqb_eq in Qq|]);
-  unfold again, ctor; rewrite Hs; unfold bind; simpl;
-  destruct (lookup k_validate_args (lift nd)); destruct (filter _ (lift nd)); simpl;
-  try rewrite Qp; try rewrite Qq; rewrite ?F; simpl; rewrite ?orb_true_r; reflexivity.
+  induction l' as [|x r IH]; intros [|y s] H; simpl in H; try discriminate; constructor.
+  - now inversion H.
+  - apply IH. now inversion H.
+Qed.
+
+(* to(d) / type(d), whatever the operator's own dtype property says (in particular when its FIRST argument is a
+   data-free operator with a nominal dtype that already equals d): leaf by leaf, same value, floating leaves get d,
+   integer / boolean leaves keep their dtype *)
+Theorem casts_every_float_leaf defdt fuel m d o n o' n' :
+  (exists dev, m = MTo (Some d) dev) \/ m = MType d ->
+  wfb o = true -> losslessb defdt o = true -> safeb m o = true ->
+  meth_call defdt fuel m o n = Some (o', n') ->
+  Forall2 (fun t' t => tvl t' = tvl t /\ tdt t' = (if is_float (tdt t) then d else tdt t) /\ trg t' = trg t)
+          (leaves o') (leaves o) /\
+  Forall (fun t' => is_float (tdt t') = true -> tdt t' = d) (leaves o').
+Proof.
+  intros M W L S E. destruct (convert_preserves defdt fuel m o n o' n' W L S E) as [_ LV].
+  apply map_eq_Forall2 in LV.
+  assert (R : forall t, cast_rule m t = (tvl t, (if is_float (tdt t) then d else tdt t), trg t)).
+  { intros t. destruct M as [[dev ->] | ->]; reflexivity. }
+  assert (F2 : Forall2 (fun t' t => tvl t' = tvl t /\ tdt t' = (if is_float (tdt t) then d else tdt t) /\ trg t' = trg t)
+                       (leaves o') (leaves o)).
+  { clear -LV R. induction LV as [|t' t l' l H _ IH]; constructor; [|exact IH].
+    rewrite R in H. unfold obs in H. inversion H. auto. }
+  split; [exact F2|].
+  clear -F2. induction F2 as [|t' t l' l [_ [H _]] _ IH]; constructor; [|exact IH].
+  intros F. rewrite H in F |- *. destruct (is_float (tdt t)) eqn:Q; [reflexivity|]. rewrite Q in F. discriminate.
+Qed.
+
+(* ------------------------------------------------------------------ the early return on the dtype property *)
+(* to() "optimised" the way torch.Tensor.to is: nothing to do when the operator already reports the requested dtype *)
+Definition to_shortcut (defdt : dt) (fuel : nat) (d : dt) (dev : option nat) (o : arg) (n : nat) : option (arg * nat) :=
+  match dtype_of o with
+  | Some x => if dt_eqb x d then Some (o, n) else meth_call defdt fuel (MTo (Some d) dev) o n
+  | None => meth_call defdt fuel (MTo (Some d) dev) o n
+  end.
+
+(* ... violates the leaf rule on EVERY operator that reports dtype d while holding a floating tensor of another dtype
+   (the dtype property is the dtype of the first argument: a permutation / zero / identity operator in front) *)
+Theorem to_shortcut_violates defdt fuel d dev o n :
+  dtype_of o = Some d -> Exists (fun t => is_float (tdt t) = true /\ tdt t <> d) (leaves o) ->
+  exists o' n', to_shortcut defdt fuel d dev o n = Some (o', n') /\
+                map obs (leaves o') <> map (cast_rule (MTo (Some d) dev)) (leaves o).
+Proof.
+  intros D X. unfold to_shortcut. rewrite D. assert (Q : dt_eqb d d = true) by (destruct d; reflexivity). rewrite Q.
+  exists o, n. split; [reflexivity|]. intros EQ. induction X as [t l [F N]|t l _ IH]; simpl in EQ; inversion EQ.
+  - apply N. unfold obs, cast_rule in H0. rewrite F in H0. now inversion H0.
+  - now apply IH.
+Qed.
+
+(* ------------------------------------------------------------------ permutation operators *)
+(* PermutationLinearOperator.to: the index tensors are handed over untouched (same storages, same dtypes, nothing
+   allocated), only the nominal dtype changes *)
+Theorem perm_to_keeps_indices defdt f d dev ch dn nd at_ n o' n' :
+  wfb (AOp CPermutation ch dn nd at_) = true ->
+  meth_call defdt (S f) (MTo d dev) (AOp CPermutation ch dn nd at_) n = Some (o', n') ->
+  o' = AOp CPermutation ch dn nd (perm_attrs d (dflt_attrs defdt CPermutation)) /\ n' = n.
+Proof.
+  intros W E. rewrite meth_call_S in E. cbv zeta in E.
+  change (guarded CPermutation) with false in E. change (cls_eqb CPermutation CCat) with false in E.
+  change (cls_eqb CPermutation CZero) with false in E. change (cls_eqb CPermutation CPermutation) with true in E.
+  cbv iota in E. exact (branch_to_perm defdt d ch dn nd at_ n o' n' W E).
+Qed.
+
+(* the known finding at the level of the model: TransposePermutationLinearOperator has no to() of its own, the generic
+   one rebuilds it through the constructor, which hard-wires float32: the result never reports the requested dtype *)
+Theorem transperm_to_resets_nominal defdt f d dev ch dn nd at_ n o' n' :
+  wfb (AOp CTransposePermutation ch dn nd at_) = true -> ch = [] ->
+  meth_call defdt (S f) (MTo d dev) (AOp CTransposePermutation ch dn nd at_) n = Some (o', n') ->
+  dtype_of o' = Some F32.
+Proof.
+  intros W -> E. rewrite meth_call_S in E. cbv zeta in E.
+  change (guarded CTransposePermutation) with false in E. change (cls_eqb CTransposePermutation CCat) with false in E.
+  change (cls_eqb CTransposePermutation CZero) with false in E.
+  change (cls_eqb CTransposePermutation CPermutation) with false in E. cbv iota in E. simpl map_st in E.
+  rewrite wfb_op in W. apply andb_prop in W as [NOK _].
+  cbv iota beta in E. rewrite (again_ok defdt _ _ _ _ _ NOK) in E. inversion E; subst. reflexivity.
+Qed.
+
+(* ------------------------------------------------------------------ torch's default dtype is not an input *)
+Lemma map_st_ext {A B} (f g : A -> nat -> option (B * nat)) :
+  (forall x n, f x n = g x n) -> forall l n, map_st f l n = map_st g l n.
+Proof.
+  intros H l. induction l as [|x r IH]; intros n; simpl; [reflexivity|]. rewrite H.
+  destruct (g x n) as [[y n1]|]; [|reflexivity]. now rewrite IH.
+Qed.
+
+Lemma on_arg_ext (r1 r2 : meth -> arg -> nat -> option (arg * nat)) :
+  (forall m a n, r1 m a n = r2 m a n) -> forall m a n, on_arg r1 m a n = on_arg r2 m a n.
+Proof.
+  intros H m a n. destruct a as [t|v|c ch dn nd at_]; [reflexivity|reflexivity|].
+  destruct m; simpl; rewrite ?H; try reflexivity.
+  destruct (r2 MClone _ n) as [[a1 n1]|]; [|reflexivity]. destruct (dtype_of a1); [|reflexivity].
+  destruct (is_float _); [apply H|reflexivity].
+Qed.
+
+Lemma bind_named_pks ps : forall rest kw l, bind_named ps rest kw = Some l -> map snd l = map snd ps.
+Proof.
+  induction ps as [|[[k dflt] p] ps IH]; intros rest kw l H; simpl in H.
+  - inversion H. reflexivity.
+  - destruct rest as [|v rest'].
+    + destruct (match lookup k kw with Some v => Some v | None => option_map AOther dflt end) as [v|]; [|discriminate].
+      destruct (bind_named ps [] kw) as [l0|] eqn:B; [|discriminate]. inversion H; subst. simpl. f_equal. eapply IH; eauto.
+    + destruct (has_key k kw); [discriminate|].
+      destruct (bind_named ps rest' kw) as [l0|] eqn:B; [|discriminate]. inversion H; subst. simpl. f_equal. eapply IH; eauto.
+Qed.
+
+Lemma attrs_from_nil defdt c (named : list (Z * arg * pk)) :
+  ~ In PAttr (map snd named) -> attrs_from defdt c named = [].
+Proof.
+  unfold attrs_from. induction named as [|[[k v] p] r IH]; intros H; simpl; [reflexivity|].
+  destruct p; simpl; try (apply IH; intros X; apply H; now right).
+  exfalso. apply H. now left.
+Qed.
+
+Lemma no_pattr c : ~ In PAttr (map snd (cs_named (spec_of c))).
+Proof.
+  pose proof (no_attr_params_all c) as H. unfold lossy_params in H.
+  induction (cs_named (spec_of c)) as [|[[k d] p] r IH]; simpl; [tauto|].
+  simpl in H. destruct p; simpl in H; try discriminate H; intros [X|X]; try discriminate X; now apply IH.
+Qed.
+
+Lemma ctor_defdt d1 d2 c pos kw : ctor d1 c pos kw = ctor d2 c pos kw.
+Proof.
+  unfold ctor. destruct (bind (spec_of c) pos kw) as [[[ppos named] extra]|] eqn:B; [|reflexivity].
+  assert (NP : ~ In PAttr (map snd named)).
+  { unfold bind in B. destruct (length pos <? cs_npos (spec_of c)); [discriminate|].
+    destruct (length (cs_named (spec_of c)) <? _); [discriminate|].
+    destruct (bind_named _ _ kw) as [nm|] eqn:BN; [|discriminate].
+    assert (nm = named) by (destruct (filter _ kw); [|destruct (cs_varkw _)]; now inversion B). subst nm.
+    rewrite (bind_named_pks _ _ _ _ BN). apply no_pattr. }
+  now rewrite !(attrs_from_nil _ c named NP).
+Qed.
+
+(* clone / detach / cpu / to / type do not read torch's default dtype: the same call gives the same result under any
+   default (in particular under a default that changed since the operator was constructed) *)
+Theorem meth_call_defdt d1 d2 : forall f m o n, meth_call d1 f m o n = meth_call d2 f m o n.
+Proof.
+  induction f as [|f IH]; intros m o n; [reflexivity|].
+  destruct o as [t|v|c ch dn nd at_]; try reflexivity.
+  rewrite !meth_call_S. cbv zeta.
+  assert (OA : forall m x k, on_arg (meth_call d1 f) m x k = on_arg (meth_call d2 f) m x k)
+    by (intros; apply on_arg_ext; exact IH).
+  assert (OG : forall d dev x k, on_arg_guarded (meth_call d1 f) d dev x k = on_arg_guarded (meth_call d2 f) d dev x k).
+  { intros d dev x k. unfold on_arg_guarded. destruct x; try reflexivity;
+      destruct (dtype_of _); destruct d; try destruct (Bool.eqb _ _); try apply OA; reflexivity. }
+  assert (AG : forall ch' nd' n', again d1 c dn ch' nd' n' = again d2 c dn ch' nd' n')
+    by (intros; unfold again; now rewrite (ctor_defdt d1 d2)).
+  assert (GEN : forall m, match map_st (on_arg (meth_call d1 f) m) ch n with
+                          | Some (ch', n') => again d1 c dn ch' nd n' | None => None end =
+                          match map_st (on_arg (meth_call d2 f) m) ch n with
+                          | Some (ch', n') => again d2 c dn ch' nd n' | None => None end).
+  { intros m0. rewrite (map_st_ext _ _ (OA m0)). destruct (map_st _ ch n) as [[ch' n']|]; [apply AG|reflexivity]. }
+  destruct m as [| | |d dev|d]; try apply GEN.
+  - destruct (guarded c).
+    + rewrite (map_st_ext _ _ (OG d dev)). destruct (map_st _ (firstn _ ch) n) as [[a' n1]|]; [|reflexivity].
+      rewrite (map_st_ext _ _ (OA (MTo d dev))). destruct (map_st _ (skipn _ ch) n1) as [[kv' n2]|]; [|reflexivity].
+      destruct (cls_eqb c CIdentity); [|apply AG].
+      destruct (keep_or k_dtype _ nd); [|reflexivity]. destruct (keep_or k_device _ nd); [apply AG|reflexivity].
+    + destruct (cls_eqb c CCat).
+      { rewrite AG. destruct (again d2 c dn ch _ n) as [[res n1]|]; [|reflexivity]. destruct d; [apply IH|reflexivity]. }
+      destruct (cls_eqb c CZero).
+      { destruct (keep_or k_dtype _ nd); [|reflexivity]. destruct (keep_or k_device _ nd); [|reflexivity].
+        now rewrite (ctor_defdt d1 d2). }
+      destruct (cls_eqb c CPermutation); [|apply GEN].
+      destruct ch as [|[p| |] [|[q| |] [|? ?]]]; try reflexivity.
+      destruct (lookup k_validate_args nd); [|reflexivity]. now rewrite (ctor_defdt d1 d2).
+  - destruct (cls_eqb c CIdentity).
+    { destruct (lookup k_diag_shape nd); [|reflexivity]. destruct (lookup k_batch_shape nd); [|reflexivity].
+      destruct (lookup k_device nd); [|reflexivity]. now rewrite (ctor_defdt d1 d2). }
+    destruct (cls_eqb c CTransposePermutation); [reflexivity|].
+    destruct (cls_eqb c CZero); [|apply GEN].
+    destruct (lookup k_device nd); [|reflexivity]. now rewrite (ctor_defdt d1 d2).
 Qed.
